@@ -313,5 +313,6 @@ pub fn check() -> Check {
         required: &["twin_runs_completed", "inserted/StaleTimer", "inserted/Undecodable", "inserted/NotForUs", "inserted/InvalidConfig"],
         workloads: vec![Workload { name: "twin", f: twin_case, quick: 12_000, thorough: 600_000, flav: Flav::Checked }],
         exhaustive: false,
+        aggregate: None,
     }
 }
